@@ -9,6 +9,10 @@ A1_FORMS = ['contains("ALFA")', 'regex("AL.A")', '"alfa" in description', 'anyof
             'normalized("AL-FA")', 'contains(description, "Alfa")', 'regex("\\\\bALFA\\\\b")']
 A2_FORMS = ['amount > 100', 'amount >= 100.5', 'abs(amount) > 100', '(amount * 2 > 200)', '100 < amount',
             '(amount > 100 and amount < 1000)']
+# the same atom with the other polarity: true of small amounts (0, 50, -20), false of 150
+A2_LOW_FORMS = ['amount < 100', 'amount <= 99.5', '100 > amount', 'not amount >= 100', '(amount < 100 and amount <= 120)']
+A2_LOW_CSV = ['[amount<100]', '[amount<=99.5]', '[amount<100]', '[amount<100]', '[amount<100][amount<=120]']
+LOW_AMOUNTS = [0.0, 0.0, 50.0, -20.0]
 AE_FORMS = ['field.kind == "ach"', 'contains(field.kind, "AC")', 'field.kind.lower() == "ach"',
             '"ACH" in field.kind', 'startswith(field.kind, "ach")']
 DYN_FORMS = ['{field.proj}', '{ field.proj }', '{extract(field.proj, "(P\\\\w+)")}', '{trim(field.proj)}']
@@ -29,6 +33,7 @@ class Variant:
             self.crlf = False
             self.noise = False
             self.neg_amount = False
+            self.low = None
         else:
             self.a1 = rnd.randrange(len(A1_FORMS))
             self.a2 = rnd.randrange(len(A2_FORMS))
@@ -40,6 +45,8 @@ class Variant:
             self.crlf = rnd.random() < 0.2
             self.noise = rnd.random() < 0.5
             self.neg_amount = self.a2 == 2 and rnd.random() < 0.5
+            # A2 as "small amount": (form index, amount of the transactions where A2 holds)
+            self.low = (rnd.randrange(len(A2_LOW_FORMS)), rnd.choice(LOW_AMOUNTS)) if not self.neg_amount and rnd.random() < 0.4 else None
 
     def describe(self):
         return dict(self.__dict__)
@@ -49,7 +56,7 @@ def atom(a, v):
     if a == 'A1':
         return A1_FORMS[v.a1]
     if a == 'A2':
-        return A2_FORMS[v.a2]
+        return A2_LOW_FORMS[v.low[0]] if v.low else A2_FORMS[v.a2]
     if a == 'AE':
         return AE_FORMS[v.ae]
     if a == 'A3':
@@ -151,6 +158,8 @@ def txn(t, v, prefix=False, extra_token=''):
     if prefix:
         desc = 'APLPAY ' + desc
     amount = 150.0 if tv['A2'] == 'T' else 50.0
+    if v.low:
+        amount = v.low[1] if tv['A2'] == 'T' else 150.0
     if v.neg_amount:
         amount = -amount
     field = {}
@@ -189,9 +198,9 @@ def csv_text(f, v):
         if c['k'] == 'atom' and c['a'] == 'A1':
             pat = ['ALFA', 'AL.A', '(ALFA|ALFB)', '\\bALFA\\b', 'alfa', '(?:AL)FA'][v.a1 % 6]
         elif c['k'] == 'atom':
-            pat = 'STORE[amount>100]'
+            pat = 'STORE' + (A2_LOW_CSV[v.low[0]] if v.low else '[amount>100]')
         else:
-            pat = 'ALFA[amount>100]'
+            pat = 'ALFA' + (A2_LOW_CSV[v.low[0]] if v.low else '[amount>100]')
         tags = '|'.join(TAGS[t][v.tag].strip() for t in sorted(r['tags']))
         lines.append('%s,%s,%s,%s,%s' % (pat, rule_name(r), CATS.get(r['cat'], ''), SUBS.get(r['sub'], ''), tags))
     return '\n'.join(lines) + '\n'
